@@ -40,8 +40,7 @@ def mon_line(mr):
     return int(m[-1]) - 1 if m else 1
 
 
-def report_monitor(run, viol, mr, events, mode):
-    line = mon_line(mr)
+def report_monitor(run, viol, line, events, mode):
     traces = split_traces(events)
     tr = [t for t in traces if t[0] <= line][-1]
     idx = line - tr[0]
@@ -56,37 +55,71 @@ def report_monitor(run, viol, mr, events, mode):
                   {"formula": viol, "mode": mode, "cfg": cfg, "event_index": idx, "trace": tr[1][: idx + 1][-80:]})
 
 
-def validate(run, path, mode, trace_ov, mon_ov, conformance=True, nontrivial=("Read", "PassRead")):
-    events = read_ndjson(path)
-    if not events:
-        raise Inconclusive("driver wrote no events for " + mode)
-    traces = split_traces(events)
-    run.cov["evaluations"] += len(events)
-    viol, mr = run.tlc_monitor("VerifyMonitor", "VerifyMonitor.cfg", path, mon_ov, timeout=900)
-    res = None
-    if conformance and not viol:
-        res = run.tlc_trace("VerifyTrace", "VerifyTrace.cfg", path, trace_ov, timeout=900)
-    log("[trace] %-22s %5d traces %6d events: monitor %s%s" % (
-        mode, len(traces), len(events), viol or "ok",
-        "" if res is None else (", conformance accepted" if res["accepted"] else ", conformance REJECTED at line %s" % res["consumed"])))
-    if viol:
-        report_monitor(run, viol, mr, events, mode)
-        return False
-    if res is not None and not res["accepted"]:
-        line = (res["consumed"] or 0) + 1
-        tr = [t for t in traces if t[0] <= line][-1]
-        if res["violated"] in PROPS:
-            run.violation("trace-invariant:%s:%s" % (res["violated"], mode),
-                          "%s false while following the recorded trace" % res["violated"], {"trace": tr[1][: line - tr[0] + 2]})
-        else:
-            run.inconclusive.append("SPEC-DRIFT %s (%s): event %d %s is not explained by Verify.tla although no C01 formula is false; prefix: %s" % (
-                mode, tr[1][0].get("cfg", ""), line - tr[0], json.dumps(events[line - 1]),
-                json.dumps(tr[1][max(0, line - tr[0] - 8): line - tr[0] + 1])))
-        return False
-    run.cov["traces_validated_against_impl"] += len(traces)
-    run.cov["distinct_nontrivial"] += len({digest([{k: v for k, v in e.items() if k != "cfg"} for e in t])
-                                           for s, t in traces if any(e.get("ev") in nontrivial for e in t)})
-    return True
+def concat(run, paths, name):
+    out = os.path.join(run.scratch, name)
+    with open(out, "w") as fh:
+        for p in paths:
+            fh.write(open(p).read())
+    return out
+
+
+def validate_all(run, groups, nontrivial=("Read", "PassRead", "LateRead")):
+    """groups: dicts(mode, paths, ov (constants of the generation graph; None = no conformance spec), sample (event predicate)).
+    The monitor (property formulas on recorded observations) judges EVERY recorded event of every group, whatever conformance says;
+    then each group with a graph is validated against the trace spec."""
+    for g in groups:
+        g["events"] = [e for p in g["paths"] for e in read_ndjson(p)]
+        if not g["events"]:
+            raise Inconclusive("driver wrote no events for " + g["mode"])
+        g["traces"] = split_traces(g["events"])
+        g["viol"] = None
+        run.cov["evaluations"] += len(g["events"])
+    todo = list(groups)
+    for attempt in range(len(groups) + 1):
+        if not todo:
+            break
+        path = concat(run, [p for g in todo for p in g["paths"]], "monitor_all_%d.ndjson" % attempt)
+        viol, mr = run.tlc_monitor("VerifyMonitor", "VerifyMonitor.cfg", path, {"NC": "6"}, timeout=1800)
+        if not viol:
+            break
+        line = mon_line(mr)
+        off = 0
+        for g in todo:
+            if line <= off + len(g["events"]):
+                g["viol"] = viol
+                report_monitor(run, viol, line - off, g["events"], g["mode"])
+                todo = todo[todo.index(g) + 1:]     # everything before it was judged fine, go on behind it
+                break
+            off += len(g["events"])
+    for g in groups:
+        res = None
+        if g["ov"] is not None and not g["viol"]:
+            path = g["paths"][0] if len(g["paths"]) == 1 else concat(run, g["paths"], "conf_%s.ndjson" % g["mode"])
+            res = run.tlc_trace("VerifyTrace", "VerifyTrace.cfg", path, g["ov"], timeout=1800)
+        log("[trace] %-22s %5d traces %6d events: monitor %s%s" % (
+            g["mode"], len(g["traces"]), len(g["events"]), g["viol"] or "ok",
+            "" if res is None else (", conformance accepted" if res["accepted"] else ", conformance REJECTED at line %s" % res["consumed"])))
+        if g["viol"]:
+            continue
+        events, traces = g["events"], g["traces"]
+        if res is not None and not res["accepted"]:
+            line = (res["consumed"] or 0) + 1
+            tr = [t for t in traces if t[0] <= line][-1]
+            if res["violated"] in PROPS:
+                run.violation("trace-invariant:%s:%s" % (res["violated"], g["mode"]),
+                              "%s false while following the recorded trace" % res["violated"], {"trace": tr[1][: line - tr[0] + 2]})
+            else:
+                run.inconclusive.append("SPEC-DRIFT %s (%s): event %d %s is not explained by Verify.tla although no C01 formula is false; prefix: %s" % (
+                    g["mode"], tr[1][0].get("cfg", ""), line - tr[0], json.dumps(events[line - 1]),
+                    json.dumps(tr[1][max(0, line - tr[0] - 8): line - tr[0] + 1])))
+            continue
+        run.cov["traces_validated_against_impl"] += len(traces)
+        run.cov["distinct_nontrivial"] += len({digest([{k: v for k, v in e.items() if k != "cfg"} for e in t])
+                                               for s, t in traces if any(e.get("ev") in nontrivial for e in t)})
+        if g.get("sample"):
+            trs = [t for s, t in traces if g["sample"](t)]
+            run.add_samples([{"mode": g["mode"], "events": [{k: v for k, v in e.items() if k not in ("pf", "err", "how")} for e in t[:14]]}
+                             for t in trs[:1]], limit=4)
 
 
 def gen_walks(run, name, ov, maxlen, extra):
@@ -194,29 +227,20 @@ def check(run):
             report_race(run, out, "fs/layer", "layer-histories")
     log("[time] drivers done at %.0fs" % (time.time() - t0))
     # ------------------------------------------------------------------ TLC decides
-    slim = lambda t, n: [{k: v for k, v in e.items() if k not in ("pf", "err", "how")} for e in t[:n]]
+    has_verr = lambda t: any(e.get("res") == "verr" for e in t)
+    groups = []
     for j in jobs:
-        path = j["out"] + ".memory"
-        if validate(run, path, "replay-" + j["name"], j["ov"], None):
-            trs = [t for s, t in split_traces(read_ndjson(path)) if any(e.get("ev") == "Read" and e.get("res") == "verr" for e in t)]
-            run.add_samples([{"mode": "replay-" + j["name"], "events": slim(t, 16)} for t in trs[:1]], limit=2)
-    for j in dbjobs:
-        validate(run, j["out"] + ".db", "replay-" + j["name"] + "-db", j["ov"], None)
+        paths = [j["out"] + ".memory"] + ([j["out"] + ".db"] if j in dbjobs else [])
+        groups.append({"mode": "replay-" + j["name"] + ("+db" if j in dbjobs else ""), "paths": paths, "ov": j["ov"], "sample": has_verr})
     if ljob:
-        if validate(run, ljob["out"], "replay-layer", ljob["ov"], None):
-            trs = [t for s, t in split_traces(read_ndjson(ljob["out"])) if sum(1 for e in t if e.get("ev") in ("LayerVerify", "LayerSkip")) >= 2]
-            run.add_samples([{"mode": "replay-layer", "events": slim(t, 12)} for t in trs[:1]], limit=3)
-    big = {"NC": "6"}
-    if "free" in STAGES:
-        if validate(run, free + ".memory", "free-run", None, big, conformance=False):
-            trs = [t for s, t in split_traces(read_ndjson(free + ".memory")) if any(e.get("res") == "verr" for e in t)]
-            run.add_samples([{"mode": "free-run", "events": slim(t, 10)} for t in trs[:1]], limit=4)
-    if "sweep" in STAGES:
-        validate(run, sweep + ".memory", "sweep", None, big, conformance=False)
-    if "db" in STAGES and "free" in STAGES:
-        validate(run, free + ".db", "free-run-db", None, big, conformance=False)
-    if "db" in STAGES and "sweep" in STAGES:
-        validate(run, sweep + ".db", "sweep-db", None, big, conformance=False)
+        groups.append({"mode": "replay-layer", "paths": [ljob["out"]], "ov": ljob["ov"],
+                       "sample": lambda t: sum(1 for e in t if e.get("ev") in ("LayerVerify", "LayerSkip")) >= 2})
+    for st, f in (("free", free), ("sweep", sweep)):
+        if st in STAGES:
+            groups.append({"mode": {"free": "free-run", "sweep": "sweep"}[st] + ("+db" if "db" in STAGES else ""),
+                           "paths": [f + ".memory"] + ([f + ".db"] if "db" in STAGES else []), "ov": None,
+                           "sample": has_verr if st == "free" else None})
+    validate_all(run, groups)
     log("[time] validation done at %.0fs" % (time.time() - t0))
     run.cov["exhaustive"] = exhaustive and {"replay", "layer"} <= STAGES
 
